@@ -25,6 +25,8 @@ pub enum WOp {
 
 #[derive(Clone, Debug)]
 pub enum Finish {
+    /// respond with a body reader that fails after that many bytes
+    RespondFail(RespSpec, usize),
     Respond(RespSpec),
     Drop,
     Panic,
@@ -39,6 +41,8 @@ pub struct Action {
     pub buf: usize,
     pub delay_ms: u64,
     pub fin: Finish,
+    /// first perform one read with an empty buffer
+    pub zero_read: bool,
 }
 
 #[derive(Clone, Debug, PartialEq)]
@@ -94,13 +98,14 @@ fn ops_enc(ops: &[WOp]) -> String {
 
 pub fn action_enc(a: &Action) -> String {
     let fin = match &a.fin {
+        Finish::RespondFail(r, n) => format!("respondfail:{}:{}", n, resp_enc(r)),
         Finish::Respond(r) => format!("respond:{}", resp_enc(r)),
         Finish::Drop => "drop".into(),
         Finish::Panic => "panic".into(),
         Finish::Writer(ops) => format!("writer:{}", ops_enc(ops)),
         Finish::Upgrade(p, r, ops) => format!("upgrade:{}:{}:{}", hex(p), resp_enc(r), ops_enc(ops)),
     };
-    format!("ar{},rd{},bs{},dl{},{}", a.as_reader, a.read_total, a.buf, a.delay_ms, fin)
+    format!("ar{},rd{},bs{},dl{},zr{},{}", a.as_reader, a.read_total, a.buf, a.delay_ms, if a.zero_read { 1 } else { 0 }, fin)
 }
 
 // ---- decoding (replay) ---------------------------------------------------------------------
@@ -143,11 +148,12 @@ fn ops_dec(s: &str) -> Vec<WOp> {
 }
 
 pub fn action_dec(s: &str) -> Action {
-    let parts: Vec<&str> = s.splitn(5, ',').collect();
+    let parts: Vec<&str> = s.splitn(6, ',').collect();
     let num = |p: &str| p[2..].parse::<usize>().unwrap_or(0);
-    let fin_s = parts.get(4).cloned().unwrap_or("drop");
+    let fin_s = parts.get(5).cloned().unwrap_or("drop");
     let f: Vec<&str> = fin_s.split(':').collect();
     let fin = match f[0] {
+        "respondfail" => Finish::RespondFail(resp_dec(&f[2..]), f.get(1).and_then(|x| x.parse().ok()).unwrap_or(0)),
         "respond" => Finish::Respond(resp_dec(&f[1..])),
         "panic" => Finish::Panic,
         "writer" => Finish::Writer(ops_dec(f.get(1).unwrap_or(&""))),
@@ -160,6 +166,7 @@ pub fn action_dec(s: &str) -> Action {
         buf: num(parts.get(2).unwrap_or(&"bs1")),
         delay_ms: num(parts.get(3).unwrap_or(&"dl0")) as u64,
         fin,
+        zero_read: num(parts.get(4).unwrap_or(&"zr0")) == 1,
     }
 }
 
@@ -199,6 +206,52 @@ enum Ev {
     Done(bool),
 }
 
+/// yields the pieces, but returns an I/O error once `fail_after` bytes were produced
+pub struct FailingReader {
+    inner: PieceReader,
+    left: usize,
+}
+
+impl FailingReader {
+    pub fn new(pieces: Vec<Vec<u8>>, fail_after: usize) -> FailingReader {
+        FailingReader { inner: PieceReader::new(pieces), left: fail_after }
+    }
+}
+
+impl Read for FailingReader {
+    fn read(&mut self, buf: &mut [u8]) -> std::io::Result<usize> {
+        if buf.is_empty() {
+            return Ok(0);
+        }
+        // peek: is there anything left to produce?
+        let mut probe = [0u8; 1];
+        if self.left == 0 {
+            return match self.inner.read(&mut probe) {
+                Ok(0) => Ok(0),
+                _ => Err(std::io::Error::new(std::io::ErrorKind::Other, "body reader failed")),
+            };
+        }
+        let n = std::cmp::min(buf.len(), self.left);
+        let got = self.inner.read(&mut buf[..n])?;
+        self.left -= got;
+        Ok(got)
+    }
+}
+
+pub fn mk_failing_response(r: &RespSpec, fail_after: usize) -> Response<Box<dyn Read + Send>> {
+    let mut resp = Response::new(
+        StatusCode(r.status),
+        r.hdrs.iter().filter_map(|(n, v)| Header::from_bytes(n.clone(), v.clone()).ok()).collect(),
+        Box::new(FailingReader::new(r.pieces.clone(), fail_after)) as Box<dyn Read + Send>,
+        r.declared,
+        None,
+    );
+    if let Some(t) = r.thr {
+        resp = resp.with_chunked_threshold(t);
+    }
+    resp
+}
+
 fn mk_response(r: &RespSpec) -> Response<Box<dyn Read + Send>> {
     let mut resp = Response::new(
         StatusCode(r.status),
@@ -234,7 +287,7 @@ fn app_thread(server: std::sync::Arc<Server>, script: Vec<Action>, tx: mpsc::Sen
             Err(_) => return,
         };
         let a = if script.is_empty() {
-            Action { as_reader: 0, read_total: 0, buf: 1, delay_ms: 0, fin: Finish::Drop }
+            Action { as_reader: 0, read_total: 0, buf: 1, delay_ms: 0, fin: Finish::Drop, zero_read: false }
         } else {
             script[std::cmp::min(idx, script.len() - 1)].clone()
         };
@@ -264,6 +317,9 @@ fn app_thread(server: std::sync::Arc<Server>, script: Vec<Action>, tx: mpsc::Sen
             }
             if a.as_reader > 0 {
                 let reader = rq.as_reader();
+                if a.zero_read {
+                    let _ = reader.read(&mut []);
+                }
                 let mut got = 0usize;
                 let mut buf = vec![0u8; std::cmp::max(1, a.buf)];
                 while got < a.read_total {
@@ -290,6 +346,11 @@ fn app_thread(server: std::sync::Arc<Server>, script: Vec<Action>, tx: mpsc::Sen
             }
             match &a.fin {
                 Finish::Respond(r) => rq.respond(mk_response(r)).is_ok(),
+                Finish::RespondFail(r, n) => {
+                    // an error caused by the application's own reader is not a client fault: any result is fine
+                    let _ = rq.respond(mk_failing_response(r, *n));
+                    true
+                }
                 Finish::Drop => {
                     drop(rq);
                     true
@@ -496,6 +557,7 @@ pub fn run_case(id: u64, c: &ConnCase, tmpdir: &str, tm: &Timing) -> String {
     cuts.push(c.bytes.len());
     let mut pos = 0;
     let mut write_failed = false;
+    let mut holdwire: Option<Vec<u8>> = None;
     for &cut in &cuts {
         if cut > pos && client.write_all(&c.bytes[pos..cut]).is_err() {
             write_failed = true;
@@ -508,6 +570,9 @@ pub fn run_case(id: u64, c: &ConnCase, tmpdir: &str, tm: &Timing) -> String {
             while wire.is_empty() && !eof && t0.elapsed() < Duration::from_millis(1000) {
                 pump(&mut wire, &mut eof, Duration::from_millis(20));
             }
+            // let the rest of that burst arrive, then remember what the client had at this point
+            while pump(&mut wire, &mut eof, Duration::from_millis(40)) {}
+            holdwire = Some(wire.clone());
         } else if cut < c.bytes.len() {
             std::thread::sleep(Duration::from_micros(tm.seg_pause_us));
         }
@@ -594,8 +659,12 @@ pub fn run_case(id: u64, c: &ConnCase, tmpdir: &str, tm: &Timing) -> String {
         let _ = std::fs::remove_file(&sock_path);
     }
     let (masked, dates_ok) = mask_dates(&wire);
+    let holdfield = match &holdwire {
+        Some(h) => format!(" holdwire={}", hex(&mask_dates(h).0)),
+        None => String::new(),
+    };
     format!(
-        "conn id={} bytes={} mode={} hold={} segs={} unix={} script={} {} | delivered={} wire={} eof={} results={} hang={} dates={}",
+        "conn id={} bytes={} mode={} hold={} segs={} unix={} script={} {} | delivered={} wire={} eof={} results={} hang={} dates={}{}",
         id,
         hex(&c.bytes),
         if c.mode == Mode::Open { "open" } else { "halfclose" },
@@ -609,6 +678,7 @@ pub fn run_case(id: u64, c: &ConnCase, tmpdir: &str, tm: &Timing) -> String {
         if eof { 1 } else { 0 },
         results.join(","),
         if hang { 1 } else { 0 },
-        if dates_ok { "ok" } else { "bad" }
+        if dates_ok { "ok" } else { "bad" },
+        holdfield
     )
 }
